@@ -1225,7 +1225,7 @@ def gen_v2(seed, n, start_id=0, persist=False):
     for i in range(n):
         r = random.Random((seed * 86028121 + start_id + i) & 0xFFFFFFFFFFFF)
         hid = "w%d" % (start_id + i)
-        ckpt = r.choice([1, 2, 3, 5, 1000])
+        ckpt = r.choice([1, 2, 3, 5, 1000] + ([3, 4, 5, 5] if persist else []))
         shard = r.randint(0, 1)
         cfgline = "cfg ckpt=%d hf=%d ed=%d shard=%d" % (ckpt, r.choice([0, 1, 1, 2]), r.choice([-1, 0, 1, 8]), shard)
         lines = ["new " + hid, cfgline, "open"]
@@ -1239,6 +1239,8 @@ def gen_v2(seed, n, start_id=0, persist=False):
         checkpoints = []
         ver = 0
         nv = r.randint(2, 9)
+        if persist and 3 <= ckpt <= 5 and r.random() < 0.6:
+            nv = r.randint(ckpt + 4, 2 * ckpt + 4)   # a deletion target strictly inside a checkpoint interval is possible
 
         def bound():
             x = r.random()
@@ -1347,6 +1349,9 @@ def gen_v2(seed, n, start_id=0, persist=False):
                         ver = max(versions)
                 elif x < 0.8 and len(versions) > 2 and ver == max(versions):
                     ptgt = r.randint(1, max(versions) - 1)
+                    inside = [v for v in versions if v < max(versions) and any(c + 2 <= v for c in checkpoints if c > 1) and v not in checkpoints]
+                    if inside and r.random() < 0.6:
+                        ptgt = r.choice(inside)          # at least two versions past a checkpoint, not on one
                     if ptgt > pruned_to:
                         lines.append("prune %d" % ptgt)
                         pruned_to = ptgt
@@ -1354,6 +1359,16 @@ def gen_v2(seed, n, start_id=0, persist=False):
                         lines.append("open %d" % max(versions))
                         working = dict(versions[max(versions)])
                         sweep(working)
+                        # every version that must stay loadable (from the last checkpoint not after the target)
+                        # is reloaded after a restart: the change log between checkpoints must still be complete
+                        keep = [v for v in versions if v >= max([c for c in checkpoints if c <= pruned_to] or [min(versions)])]
+                        for v in r.sample(keep, min(3, len(keep))):
+                            lines.append("close")
+                            lines.append("open %d" % v)
+                            sweep(dict(versions[v]))
+                        lines.append("close")
+                        lines.append("open %d" % max(versions))
+                        working = dict(versions[max(versions)])
                 elif ver == max(versions) and ver not in snapped and versions[ver]:
                     snapped.add(ver)
                     if r.random() < 0.5:
